@@ -32,11 +32,12 @@ def run_solver(cmd, script, timeout):
     return out, None, time.time() - t0
 
 
-def decide(queries, timeout=120, cross=True):
+def decide(queries, timeout=20, cross=True):
     """each query is solved in its own (push)(pop) frame of one solver process per solver"""
     if not queries:
         return 0.0
     parts = ["(set-logic ALL)"]
+    per_ms = int(timeout * 1000)
     for q in queries:
         parts.append("(push 1)")
         body = to_smt2(q.assertions)
@@ -47,11 +48,11 @@ def decide(queries, timeout=120, cross=True):
     script = "\n".join(parts) + "\n"
     total = 0.0
     outs = {}
-    solvers = [("z3", ["/usr/bin/z3", "-in", "-smt2"])]
+    solvers = [("z3", ["/usr/bin/z3", "-in", "-smt2", f"-t:{per_ms}"])]
     if cross:
-        solvers.append(("cvc5", ["cvc5", "--lang", "smt2", "--incremental"]))
+        solvers.append(("cvc5", ["cvc5", "--lang", "smt2", "--incremental", f"--tlimit-per={per_ms}"]))
     for nm, cmd in solvers:
-        out, err, dt = run_solver(cmd, script, timeout * max(1, len(queries)))
+        out, err, dt = run_solver(cmd, script, 60 + timeout * max(1, len(queries)))
         total += dt
         if err or out is None:
             outs[nm] = None
@@ -60,6 +61,15 @@ def decide(queries, timeout=120, cross=True):
             outs[nm] = ("error", out[:400])
             continue
         outs[nm] = [l.strip() for l in out.split("\n") if l.strip() in ("sat", "unsat", "unknown")]
+    def single(q, cmd, tmo):
+        body = to_smt2(q.assertions)
+        body = "\n".join(l for l in body.split("\n") if not l.startswith("(set-info") and not l.startswith("(set-logic") and not l.startswith(";"))
+        out, err, dt = run_solver(cmd, "(set-logic ALL)\n" + body + "\n(check-sat)\n", tmo + 30)
+        if err or out is None or "(error" in out:
+            return "unknown", dt
+        vs_ = [l.strip() for l in out.split("\n") if l.strip() in ("sat", "unsat", "unknown")]
+        return (vs_[0] if vs_ else "unknown"), dt
+
     for i, q in enumerate(queries):
         vs = {}
         for nm, _ in solvers:
@@ -73,6 +83,14 @@ def decide(queries, timeout=120, cross=True):
                 vs[nm] = o[i]
             else:
                 vs[nm] = "missing"
+        # a solver that gave up is replaced by a third one (z3 5.x) with a longer limit; two definite,
+        # agreeing verdicts are required in any case
+        if cross and sorted(vs.values()) in (["unknown", "unsat"], ["sat", "unknown"], ["timeout", "unsat"], ["sat", "timeout"]):
+            v3, dt = single(q, ["z3-new", "-in", "-smt2", f"-t:{per_ms * 6}"], timeout * 6)
+            total += dt
+            gave_up = [k for k, v in vs.items() if v in ("unknown", "timeout")][0]
+            vs["z3-new(for " + gave_up + ")"] = v3
+            del vs[gave_up]
         q.solver_verdicts = vs
         vals = set(vs.values())
         if len(vals) == 1 and vals <= {"sat", "unsat"}:
